@@ -944,3 +944,107 @@ def s5(facts, tier):
         ok = bool(v and idx_ok and ret_ok and start0)
         why = "the loop variable is the probed index and the returned count, starting at 0" if ok else "loop shape differs (index / return / start)"
     yield ob(["C17"], "S5", "default-introspect_len", "pass" if ok else "undecided", where(f), why)
+
+
+# ---------------------------------------------------------------------------------------------
+# S6 / S7: Introspect impls neither panic on a value nor disagree with their siblings
+
+def _shape(n, depth=0):
+    """expression shape with receivers and variable names erased"""
+    n = peel_block(peel(n)) if isinstance(n, dict) else n
+    if not isinstance(n, dict) or depth > 12:
+        return "?"
+    k = n.get("k")
+    if k in ("Ref", "Deref", "Coerce", "Cast"):
+        return _shape(n["e"], depth + 1)
+    if k == "Var" or k == "Field":
+        return "x"
+    if k == "Lit":
+        return str(n.get("int", "lit"))
+    if k in ("Const", "ConstBlock"):
+        return str(n.get("id", "const")).rsplit("::", 1)[-1]
+    if k == "Bin":
+        return f"({_shape(n['l'], depth + 1)} {n['op']} {_shape(n['r'], depth + 1)})"
+    if k == "Call":
+        return (callee(n) or "?").rsplit("::", 1)[-1] + "(" + ",".join(_shape(a, depth + 1) for a in n.get("args", [])) + ")"
+    if k == "Block":
+        return _shape(n.get("e") or {}, depth + 1)
+    return k or "?"
+
+
+def _inline_shape(facts, f, depth=0):
+    """shape of a function's tail expression, with calls to private free helpers replaced by the helper's own shape"""
+    def go(n, d):
+        n = peel_block(peel(n)) if isinstance(n, dict) else n
+        if isinstance(n, dict) and n.get("k") == "Call" and d < 3:
+            h = facts.fns.get((n.get("res") or {}).get("fn") or n.get("fn"))
+            if h is not None and h["crate"] == "savefile" and h.get("body") and not h.get("impl") and not h.get("pub"):
+                inner = _inline_shape(facts, h, d + 1)
+                return inner.replace("x", "<" + ",".join(go(a, d + 1) for a in n.get("args", [])) + ">", 1) if "x" in inner else inner
+        if isinstance(n, dict) and n.get("k") == "Bin":
+            return f"({go(n['l'], d)} {n['op']} {go(n['r'], d)})"
+        if isinstance(n, dict) and n.get("k") in ("Ref", "Deref", "Coerce", "Cast"):
+            return go(n["e"], d)
+        return _shape(n)
+    t = peel_block(f["body"])
+    while isinstance(t, dict) and t.get("k") == "Block" and t.get("e") is not None and not t.get("stmts"):
+        t = peel_block(t["e"])
+    return go(t, depth)
+
+
+MAP_SIBLINGS = ("std::collections::hash::map::HashMap<", "alloc::collections::btree::map::BTreeMap<", "indexmap::map::IndexMap<")
+SET_SIBLINGS = ("std::collections::hash::set::HashSet<", "alloc::collections::btree::set::BTreeSet<", "indexmap::set::IndexSet<")
+
+
+@rule("S7", ["C17"], floor=2, doc="sibling containers agree: the introspect_len of the key-value maps (HashMap, BTreeMap, IndexMap) are the same expression of "
+      "the container's length, and so are those of the sets; a cap or factor applied in a different place in one sibling makes its count "
+      "disagree with the children it serves for some sizes")
+def s7(facts, tier):
+    for label, heads in (("maps", MAP_SIBLINGS), ("sets", SET_SIBLINGS)):
+        shapes = {}
+        for fid, f in facts.fns.items():
+            im = f.get("impl") or {}
+            if f["crate"] == "savefile" and im.get("trait") == TRAIT and f.get("name") == "introspect_len" and f.get("body") \
+                    and (im.get("self_ty") or "").startswith(heads) and "~" not in fid:
+                shapes[im["self_ty"].split("<")[0]] = (_inline_shape(facts, f), f)
+        if len(shapes) < 2:
+            yield ob(["C17"], "S7", label, "undecided", "", f"fewer than two {label} impls found")
+            continue
+        vals = {}
+        for ty, (sh, f) in shapes.items():
+            vals.setdefault(sh, []).append((ty, f))
+        if len(vals) == 1:
+            yield ob(["C17"], "S7", label, "pass", where(next(iter(shapes.values()))[1]), f"{len(shapes)} {label}: introspect_len = {next(iter(vals))}")
+        else:
+            major = max(vals.items(), key=lambda kv: len(kv[1]))
+            odd = [(ty, f, sh) for sh, lst in vals.items() if sh != major[0] for ty, f in lst]
+            ty, f, sh = odd[0]
+            yield ob(["C17"], "S7", label, "violation", where(f),
+                     f"{ty}: introspect_len is `{sh}` while its sibling {label} compute `{major[0]}`: for some sizes the reported count differs from "
+                     f"the number of children introspect_child serves (the children are served by the same shared code in all siblings)")
+
+
+S6_TRIAGE = {
+    "<bit_set::BitSet as savefile::Introspect>::introspect_value:Result::unwrap": "write! into a String cannot fail",
+    "<alloc::collections::binary_heap::BinaryHeap<T> as savefile::Introspect>::introspect_child:Option::unwrap": "nth(index) after `index >= len()` returned None",
+}
+
+
+@rule("S6", ["C17"], floor=150, doc="rendering a value never panics: no Introspect / IntrospectItem impl of the library contains a panicking construct "
+      "(panic!/unwrap/expect/range indexing/time arithmetic, or a library conversion documented to panic for some values such as "
+      "DateTime::from(SystemTime)) outside the reviewed list - the Introspector renders every child of every frame it expands")
+def s6(facts, tier):
+    from .taint_rules import panic_kind
+    for fid, f in sorted(facts.fns.items()):
+        im = f.get("impl") or {}
+        if f["crate"] != "savefile" or im.get("trait") not in (TRAIT, "savefile::IntrospectItem") or not f.get("body"):
+            continue
+        bad = []
+        for x in walk(f["body"]):
+            if x.get("k") == "Call":
+                k = panic_kind(x)
+                if k and f"{fid.split('~')[0]}:{k}" not in S6_TRIAGE:
+                    bad.append((k, x))
+        yield ob(["C17"], "S6", fid, "violation" if bad else "pass", where(f, bad[0][1]) if bad else where(f),
+                 f"{fid}: panicking construct `{bad[0][0]}`: rendering a value of this type can panic for some values, and the Introspector "
+                 f"renders every child of every frame it expands (navigation panics)" if bad else "no untriaged panicking construct")
